@@ -275,10 +275,9 @@ class SimBackend(TextQueryBackend):
 
     def finalize_query_st(self, rule: Any, query: Any, index: int, state: ConversionState) -> Any:
         # the tracking data a backend can read from the pipeline after it was applied to the rule:
-        # explicitly named applied items (auto-generated identifiers depend on random names) and the
-        # field mapping table
+        # the identifiers of the applied items and the field mapping table
         p = self.last_processing_pipeline
-        applied = sorted(i for i in p.applied_ids if not re.fullmatch(r"[0-9a-f]{16}", i))
+        applied = sorted(p.applied_ids)  # generated identifiers too: they are documented as deterministic
         fmap = sorted((str(k), sorted(map(str, v))) for k, v in p.field_mappings.items())
         return (f"ST(index={state.processing_state.get('index', 'none')} applied={applied} "
                 f"fieldmap={fmap})[{query}]")
